@@ -86,12 +86,12 @@ type Mismatch struct {
 }
 
 type Report struct {
-	Cases      int           `json:"cases"`
-	Comparisons int          `json:"comparisons"`
-	FullStack  int           `json:"fullstack_cases"`
-	Mismatches []Mismatch    `json:"mismatches"`
-	Samples    []interface{} `json:"samples"`
-	Error      string        `json:"error,omitempty"`
+	Cases       int           `json:"cases"`
+	Comparisons int           `json:"comparisons"`
+	FullStack   int           `json:"fullstack_cases"`
+	Mismatches  []Mismatch    `json:"mismatches"`
+	Samples     []interface{} `json:"samples"`
+	Error       string        `json:"error,omitempty"`
 }
 
 func concrete(abs map[string][]string) map[string]string {
@@ -194,14 +194,29 @@ func RunFullStack(cases []Case, rep *Report) {
 		os.Unsetenv(n)
 	}
 	done := 0
+	doneCaching := 0
 	for i, c := range cases {
-		if c.Cfg.Caching || c.Cfg.Override || !c.Cfg.InitHandler || !c.Cfg.InitNames || len(c.Cfg.Proc) != 0 {
+		if c.Cfg.Override || !c.Cfg.InitHandler || !c.Cfg.InitNames || len(c.Cfg.Proc) != 0 || c.Cfg.EmptyTok {
 			continue
 		}
-		if done >= 12 {
-			break
+		// plain credentials: 12 cases; snapshot (init caching) mode, where the credentials are served by the endpoint and
+		// customer variables with the credential names arrive unchanged: 12 cases, through rapid's own init path
+		if c.Cfg.Caching {
+			// (half of them with customer variables named like the credentials)
+			hasAkid := false
+			for _, k := range c.Cfg.Cust {
+				hasAkid = hasAkid || k == "AKID"
+			}
+			if doneCaching >= 12 || (doneCaching%2 == 0 && !hasAkid) {
+				continue
+			}
+			doneCaching++
+		} else {
+			if done >= 12 {
+				continue
+			}
+			done++
 		}
-		done++
 		cust := map[string]string{}
 		for _, k := range c.Cfg.Cust {
 			for _, n := range names[k] {
@@ -209,8 +224,9 @@ func RunFullStack(cases []Case, rep *Report) {
 			}
 		}
 		// one case lets the operating system choose the port ("--runtime-api-address host:0")
+		port0 := !c.Cfg.Caching && done == 3
 		s, err := stack.New(stack.Options{Ext: []stack.ExtFile{{Name: "e1", Kind: "file"}}, TimeoutMs: 500, CustomerEnv: cust, FullEnv: true,
-			Port0: done == 3})
+			Port0: port0, InitCaching: c.Cfg.Caching})
 		if err != nil {
 			rep.Error = err.Error()
 			return
@@ -245,11 +261,23 @@ func RunFullStack(cases []Case, rep *Report) {
 				r[k] = v
 			}
 			api := s.Addr
-			if done == 3 {
+			if port0 {
 				api = rtEnv["AWS_LAMBDA_RUNTIME_API"] // chosen by the operating system; must be connectable (below)
 			}
 			sub := map[string]string{"_HANDLER": "handler.fn", "AWS_LAMBDA_FUNCTION_NAME": "test_function", "AWS_LAMBDA_FUNCTION_VERSION": "$LATEST",
 				"AWS_ACCESS_KEY_ID": "AKIDEXAMPLE", "AWS_SECRET_ACCESS_KEY": "secret", "AWS_SESSION_TOKEN": "session", "AWS_LAMBDA_RUNTIME_API": api}
+			if c.Cfg.Caching {
+				// the credential names are ordinary customer variables in this mode; the container-credential variables
+				// carry the address and a per-instance token chosen at run time (must be there, value not predictable)
+				delete(sub, "AWS_ACCESS_KEY_ID")
+				delete(sub, "AWS_SECRET_ACCESS_KEY")
+				delete(sub, "AWS_SESSION_TOKEN")
+				for _, k := range []string{"AWS_CONTAINER_CREDENTIALS_FULL_URI", "AWS_CONTAINER_AUTHORIZATION_TOKEN"} {
+					if _, ok := r[k]; ok && rtEnv[k] != "" {
+						r[k] = rtEnv[k]
+					}
+				}
+			}
 			for k, v := range sub {
 				if _, ok := r[k]; ok {
 					r[k] = v
